@@ -52,6 +52,32 @@ fn vp_get_text(id: StrId) -> (r: String)
     ensures utf8(r@) == text_bytes(id),
 { unimplemented!() }
 
+// ---- parol's token, opaque: (start_line, start_column, start offset) and text are uninterpreted -----------------
+#[verifier::external_body]
+pub struct VpParolToken { _p: u8 }
+#[verifier::external_body]
+pub struct VpErr { _p: u8 }
+pub uninterp spec fn ploc(x: VpParolToken) -> (u32, u32, u32);
+pub uninterp spec fn ptext(x: VpParolToken) -> Seq<char>;
+
+#[verifier::external_body]
+fn vp_loc_start_line(x: &VpParolToken) -> (r: u32) ensures r == ploc(*x).0 { unimplemented!() }
+#[verifier::external_body]
+fn vp_loc_start_column(x: &VpParolToken) -> (r: u32) ensures r == ploc(*x).1 { unimplemented!() }
+#[verifier::external_body]
+fn vp_loc_start(x: &VpParolToken) -> (r: u32) ensures r == ploc(*x).2 { unimplemented!() }
+/// parol's Location::len(): assumed to be the byte length of the token text
+#[verifier::external_body]
+fn vp_loc_len(x: &VpParolToken) -> (r: usize) ensures r == utf8(ptext(*x)).len(), r < 0x7fff_ffff { unimplemented!() }
+#[verifier::external_body]
+fn vp_loc_file(x: &VpParolToken) -> (r: &str) { unimplemented!() }
+#[verifier::external_body]
+fn vp_ptext(x: &VpParolToken) -> (r: &str) ensures r@ == ptext(*x) { unimplemented!() }
+#[verifier::external_body]
+fn vp_insert_path(s: &str) -> (r: PathId) { unimplemented!() }
+#[verifier::external_body]
+fn vp_current_text() -> (r: TextId) { unimplemented!() }
+
 #[verifier::external_body]
 fn vp_token_text(t: &Token) -> (r: String)
     ensures utf8(r@) == text_bytes(t.text),
@@ -100,7 +126,9 @@ fn vp_is_doc_comment(s: &str) -> (r: bool) { unimplemented!() }
 #[verifier::external_body]
 fn vp_new_token_id() -> (r: TokenId) { unimplemented!() }
 #[verifier::external_body]
-fn vp_insert_str(s: &str) -> (r: StrId) { unimplemented!() }
+fn vp_insert_str(s: &str) -> (r: StrId)
+    ensures text_bytes(r) == utf8(s@),
+{ unimplemented!() }
 #[verifier::external_body]
 fn vp_doc_insert(path: PathId, line: u32, text: StrId) { unimplemented!() }
 
